@@ -109,10 +109,10 @@ def run_pack(cfg: Cfg, plan=None, scheduler="synchronous", workers=None, delays=
 
 
 # ---------------------------------------------------------------------------------------------------------------------
-def model_path(rel, cfg, gens):
+def model_path(rel, cfg, gens, genbase=0):
     """relative path -> PackFS path record (or None when the path is not one the model knows)"""
     if isinstance(rel, list):
-        return [model_path(x, cfg, gens) for x in rel]
+        return [model_path(x, cfg, gens, genbase) for x in rel]
     rel = rel.rstrip("/")
     if rel == "ds.parq":
         return dict(loc="ds", k=-1, i=-1, gen=0)
@@ -136,7 +136,7 @@ def model_path(rel, cfg, gens):
             g = 0
         else:
             if tag not in gens:
-                gens[tag] = len(gens)
+                gens[tag] = genbase            # the first call of a trace is generation 0, the repeat generation 1
             g = gens[tag]
         return dict(loc="tmp", k=int(m.group(2)), i=(int(m.group(3)) + 1) if m.group(3) is not None else -1, gen=g)
     return None
@@ -149,7 +149,7 @@ def task_of(t):
     return ["proc", int(b) + 1] if a == "proc" else ["cat", int(b)]
 
 
-def to_trace(run: Run, assign, gens=None):
+def to_trace(run: Run, assign, gens=None, genbase=0):
     """header + events in the vocabulary of Trace_PackFS; returns (lines, n_injected, unknown_paths)"""
     cfg = run.cfg
     gens = {} if gens is None else gens
@@ -160,7 +160,7 @@ def to_trace(run: Run, assign, gens=None):
         if e["op"] == "invalidate_cache":
             continue
         protocol = e["origin"] in PROTOCOL_ORIGINS
-        p = model_path(e["path"], cfg, gens)
+        p = model_path(e["path"], cfg, gens, genbase)
         if isinstance(p, list):
             p1, p2 = p
         else:
@@ -187,7 +187,7 @@ def to_trace(run: Run, assign, gens=None):
         if isinstance(res, bool):
             ans = int(res)
         if op == "ls" and isinstance(res, list):
-            ls = [q for q in (model_path(x, cfg, gens) for x in res) if q is not None]
+            ls = [q for q in (model_path(x, cfg, gens, genbase) for x in res) if q is not None]
             if len(ls) != len(res) and not e.get("injected"):
                 unknown.append(e)
         inj = 1 if e.get("injected") else 0
@@ -195,7 +195,7 @@ def to_trace(run: Run, assign, gens=None):
         evs.append(dict(task=task_of(e["task"]), op=op, p1=p1, p2=p2, kind="protocol" if protocol else "foreign", injected=inj, ans=ans, ls=ls))
     tr = []
     for rel, ty in sorted(run.tree.items()):
-        q = model_path(rel, cfg, gens)
+        q = model_path(rel, cfg, gens, genbase)
         if q is not None:
             tr.append(dict(p=q, ty=ty))
         elif rel not in ("scratch",):
@@ -226,7 +226,7 @@ def validate_runs(items, invariants=("CleanFinal", "RerunRestores", "NoSharedWri
         lines, injected, unknown = to_trace(run, assign, gens)
         if rerun_run is not None:
             # the repeat with overwrite = True continues the same trace: PackFS!Rerun is a silent step of the trace spec
-            l2, _, u2 = to_trace(rerun_run, assign, gens)
+            l2, _, u2 = to_trace(rerun_run, assign, gens, genbase=1)
             lines = [dict(lines[0], final_status=rerun_run.status, tree=l2[0]["tree"])] + lines[1:] + l2[1:]
             unknown += u2
         if unknown:
